@@ -206,6 +206,107 @@ class GenTwice:
         return ({'replay': 'fail' if ds[0][0] != ds[1][0] else 'pass', 'digests': [d[0] for d in ds]}, None)
 
 
+class GenBothBuilds:
+    """C19: the probes are compiled in module mode and in component mode (module + one library per rule, linked the way the build script does);
+    the same sweep is run against both builds and must produce the same transcript digest and the same contract verdicts"""
+    name = 'gen_both_builds'
+
+    def __init__(self):
+        self._r = {}
+
+    def _build(self, component):
+        from kit import gen_native as GN
+        return GN.build(component=component)[0]
+
+    def _run(self, exe, args):
+        import subprocess
+        p = subprocess.run([exe] + list(args), stdout=subprocess.PIPE, stderr=subprocess.PIPE, text=True, timeout=3000)
+        last = None
+        for line in p.stdout.splitlines():
+            if line.startswith('{'):
+                try:
+                    last = json.loads(line)
+                except ValueError:
+                    pass
+        return last
+
+    def sweep(self, tier):
+        if tier in self._r:
+            return self._r[tier]
+        import time
+        r = driver.PartResult(self.name, 'bounded')
+        t0 = time.time()
+        r.rule = ('the probe theories are compiled twice by the compiler built from the current tree -- as single modules, and as modules plus one component library per rule (linked with '
+                  '-l static:+verbatim=<rule>.rlib like the build script does) -- and the whole gen sweep (same seed) is run against both builds: the digest of everything observed through '
+                  'the API must be identical and neither build may fail a contract the other one passes')
+        seed = os.environ.get('VERIF_SEED', '0') or '0'
+        args = ['sweep', 'all', 'thorough' if tier == 'thorough' else 'quick', seed]
+        r.checker_cmd = 'native_gen(module build) %s ; native_gen(component build) %s' % (' '.join(args), ' '.join(args))
+        try:
+            em, ec = self._build(False), self._build(True)
+        except Exception as e:      # noqa
+            r.status, r.reason = 'undecided', 'native-build-failed'
+            r.notes.append(str(e)[-2500:])
+            r.wall_s = time.time() - t0
+            self._r[tier] = r
+            return r
+        try:
+            dm, dc = self._run(em, args), self._run(ec, args)
+        except Exception as e:      # noqa
+            dm = dc = None
+            r.notes.append(str(e)[-500:])
+        r.wall_s = time.time() - t0
+        if not dm or not dc:
+            r.status, r.reason = 'undecided', 'native-no-output'
+        else:
+            r.evaluations = dm.get('evaluations', 0) + dc.get('evaluations', 0)
+            r.distinct_nontrivial = dc.get('evaluations', 0)
+            r.notes.append('digests: module %s component %s' % (dm.get('digest'), dc.get('digest')))
+            fm = set((f.get('function'), f.get('class')) for f in dm.get('fails', []))
+            only_c = [f for f in dc.get('fails', []) if (f.get('function'), f.get('class')) not in fm]
+            for f in only_c:
+                r.failures.append({'obligation': 'the component build fails a contract the module build passes: ' + f.get('what', '')[:160], 'function': f.get('function'), 'message': f.get('what', ''),
+                                   'input': f.get('input'), 'native': self.name, 'class': 'component-only'})
+            if dm.get('digest') != dc.get('digest') and not only_c:
+                r.failures.append({'obligation': 'the same API call sequences produce different transcripts against the module build and the component build (digest %s vs %s)' % (dm.get('digest'), dc.get('digest')),
+                                   'function': 'generated model', 'message': 'transcript digests of the two builds differ -- builds-differ', 'input': ' '.join(args), 'native': self.name, 'class': 'builds-differ'})
+            if r.failures:
+                r.status = 'violation'
+        self._r[tier] = r
+        return r
+
+    def replay(self, inp):
+        r = self.sweep('quick')
+        return ({'replay': 'fail' if r.failures else 'pass', 'notes': r.notes}, None)
+
+
+def C19():
+    return {
+        'level': 'exploration', 'parts': [GenBothBuilds()], 'samples': [], 'routed_natives': (),
+        'assumptions': [
+            'bounded: the probe theories; the API histories of the gen sweep; one machine',
+            'decided: "any API history run against either build yields identical observable results" (transcript digest: ids, iterator outputs in order, query results) and, through linking, "the module imports exactly symbols the component libraries export" for these programs; the textual clauses (environment declared identically on both sides, same rule code) are not compared as text -- a mismatch shows as a build failure (UNDECIDED) or as a behavioural difference',
+            'a 64-bit digest is compared (a collision would hide a difference)',
+        ],
+    }
+
+
+def compile_twice():
+    from kit.compile_det import CompileTwice
+    return CompileTwice()
+
+
+def C13():
+    return {
+        'level': 'exploration', 'parts': [compile_twice()], 'samples': [], 'routed_natives': (),
+        'assumptions': [
+            'bounded: the probe theories; two runs per build mode on one machine with the same compiler binary; input and output directories differ between the runs; component mode is run with RAYON_NUM_THREADS=1 and 8',
+            'compared: every generated text file (module sources, component sources, digest files), byte for byte; compiled libraries are not compared',
+            'a scheduling-dependent difference that needs a particular interleaving may not show in two runs',
+        ],
+    }
+
+
 def C20():
     return {
         'level': 'exploration', 'parts': [GenTwice()], 'samples': [], 'routed_natives': (),
@@ -319,9 +420,9 @@ def C18():
     }
 
 
-PROPERTIES = {'C20': C20, 'C01': C01, 'C03': C03, 'C04': C04, 'C05': C05, 'C06': C06, 'C07': C07, 'C14': C14, 'C08': C08, 'C16': C16, 'C18': C18, 'C11': C11}
+PROPERTIES = {'C19': C19, 'C13': C13, 'C20': C20, 'C01': C01, 'C03': C03, 'C04': C04, 'C05': C05, 'C06': C06, 'C07': C07, 'C14': C14, 'C08': C08, 'C16': C16, 'C18': C18, 'C11': C11}
 
-NATIVES = {'uf_0': lambda: uf_native(0), 'uf_1': lambda: uf_native(1), 'rt_wb': lambda: rt_native('wb'), 'rt_pt': lambda: rt_native('pt'), 'rt_ts': lambda: rt_native('ts'), 'sn': sn_native, 'sd': sd_native, 'gen': gen_native, 'emit_sn': emit_sn, 'gen_twice': GenTwice}
+NATIVES = {'uf_0': lambda: uf_native(0), 'uf_1': lambda: uf_native(1), 'rt_wb': lambda: rt_native('wb'), 'rt_pt': lambda: rt_native('pt'), 'rt_ts': lambda: rt_native('ts'), 'sn': sn_native, 'sd': sd_native, 'gen': gen_native, 'emit_sn': emit_sn, 'gen_twice': GenTwice, 'compile_twice': compile_twice, 'gen_both_builds': GenBothBuilds}
 
 
 def replay(pid, path):
